@@ -110,10 +110,16 @@ def install_walker_env(ctx, eng, nsources=1):
         g = deref_ref(eng, st, args[0])
         p = pexpr(eng, st, args[1])
         isd = args[2]
-        ig = z3.Bool("git_ignores_%s_%d" % (re.sub(r"\W+", "_", repr(p))[:30], next(eng.fresh_ids)))
-        return Outcome(OpaqueV("Match", None, {"ignore": ig}), events=[Event("gi.matched", [p, isd, g.attrs["root"]], BoolV(ig))])
+        # Match::None / Match::Ignore(glob) / Match::Whitelist(glob): the matcher's verdict is an uninterpreted value
+        kind = z3.Int("git_match_%s_%d" % (re.sub(r"\W+", "_", repr(p))[:30], next(eng.fresh_ids)))
+        st.pc.append(z3.And(kind >= 0, kind <= 2))
+        return Outcome(OpaqueV("Match", None, {"kind": kind}), events=[Event("gi.matched", [p, isd, g.attrs["root"]], BoolV(kind == 1))])
     S(r"^Gitignore::matched::<", s_matched)
-    S(r"^ignore::Match::<.*>::is_ignore$", lambda e, st, c, a, d: Outcome(BoolV(deref_ref(e, st, a[0]).attrs["ignore"])))
+    S(r"^Gitignore::matched_path_or_any_parents::<", lambda e, st, c, a, d: Outcome(diverge="model: matched_path_or_any_parents is not the per-entry question"))
+    mk = lambda want: (lambda e, st, c, a, d: Outcome(BoolV(deref_ref(e, st, a[0]).attrs["kind"] == want)))
+    S(r"^ignore::Match::<.*>::is_ignore$", mk(1))
+    S(r"^ignore::Match::<.*>::is_none$", mk(0))
+    S(r"^ignore::Match::<.*>::is_whitelist$", mk(2))
 
     # ---- WalkDir (per-entry abstraction)
     def s_wd_new(eng, st, callee, args, dty):
